@@ -614,9 +614,9 @@ pub fn run_c20_agent(cfg: &Cfg) -> i32 {
     let public: Vec<Vec<u8>> = crate::peers::PUBLIC_CERTS.iter().map(|c| secrets::pem_der(&std::fs::read(dir.join(c)).unwrap_or_default())).collect();
     let directives = ["", "trace", "debug", "netconf=trace", "bgpfu_junos_agent=trace,rustls=trace,tokio_rustls=trace", "info,netconf::transport=trace"];
     let outcomes = ["success", "untrusted-ca", "paths-swapped", "peer-drops", "cert-bundle-with-key", "ca-bundle-with-key", "key-file-with-trailing-copy", "unusable-key",
-        "key-file-on-one-line", "key-file-without-end-marker", "key-file-with-crlf-and-leading-text", "key-file-with-latin1-leading-text", "key-file-with-byte-order-mark"];
+        "key-file-on-one-line", "key-file-without-end-marker", "key-file-with-crlf-and-leading-text", "key-file-with-latin1-leading-text", "key-file-with-byte-order-mark", "daemon-reconnects"];
     let keys = [("client.key", "client.crt"), ("client.sec1.key", "client.crt"), ("client-rsa.key", "client-rsa.crt"), ("client-rsa.pkcs1.key", "client-rsa.crt")];
-    let n = cfg.count(91, 910);
+    let n = cfg.count(98, 980);
     for i in 0..n {
         let idx = cfg.case_index(i);
         let mut r = cfg.prng("C20-agent", idx);
@@ -679,11 +679,16 @@ pub fn run_c20_agent(cfg: &Cfg) -> i32 {
             _ => (e2e::pki("ca.crt"), e2e::pki(cert), e2e::pki(key)),
         };
         let lf = logfile.to_string_lossy().into_owned();
+        let mut daemon_sessions = 0usize;
         let run = rt.block_on(async {
             let j = FakeJunos::start(script, Config::default()).await.expect("fake junos");
             // run_agent appends the fixture paths; later options win in clap? no: pass our own full command
             let mut cmd = tokio::process::Command::new(e2e::agent_bin());
-            cmd.args(["-f", "0", "--irrd-host", "127.0.0.1", "--irrd-port", &irr.port().to_string(), verbosity]);
+            // "daemon-reconnects": daemon mode with a one-second period, three or four cycles, each
+            // a new connection with the same identity (what one cycle was given must not turn up in
+            // the log of a later one)
+            let daemon = outcome == "daemon-reconnects";
+            cmd.args(["-f", if daemon { "1" } else { "0" }, "--irrd-host", "127.0.0.1", "--irrd-port", &irr.port().to_string(), verbosity]);
             if to_file {
                 cmd.args(["-l", &lf]);
             }
@@ -693,7 +698,34 @@ pub fn run_c20_agent(cfg: &Cfg) -> i32 {
                 cmd.env("RUST_LOG", directive);
             }
             cmd.stdin(std::process::Stdio::null()).stdout(std::process::Stdio::piped()).stderr(std::process::Stdio::piped()).kill_on_drop(true);
-            let out = tokio::time::timeout(Duration::from_secs(25), cmd.output()).await;
+            let out = if daemon {
+                match cmd.spawn() {
+                    Ok(child) => {
+                        let pid = child.id().unwrap_or(0) as i32;
+                        let waiter = tokio::spawn(child.wait_with_output());
+                        tokio::time::sleep(Duration::from_millis(3400)).await;
+                        unsafe {
+                            libc::kill(pid, libc::SIGTERM);
+                        }
+                        match tokio::time::timeout(Duration::from_secs(20), waiter).await {
+                            Ok(Ok(o)) => Ok(o),
+                            _ => {
+                                unsafe {
+                                    libc::kill(pid, libc::SIGKILL);
+                                }
+                                Err(tokio::time::timeout(Duration::from_millis(1), std::future::pending::<()>()).await.unwrap_err())
+                            }
+                        }
+                    }
+                    Err(e) => Ok(Err(e)),
+                }
+            } else {
+                tokio::time::timeout(Duration::from_secs(25), cmd.output()).await
+            };
+            if daemon {
+                let n = j.shared.lock().unwrap().sessions.len();
+                daemon_sessions = n;
+            }
             j.stop();
             out
         });
@@ -714,6 +746,12 @@ pub fn run_c20_agent(cfg: &Cfg) -> i32 {
         let key_name = format!("{outcome}|{verbosity}|{directive}|{to_file}|{key}");
         rep.case(Some(key_name.as_bytes()));
         rep.count(&format!("outcome:{outcome}"));
+        if outcome == "daemon-reconnects" {
+            rep.count_n("daemon_connections_with_the_same_identity", daemon_sessions as u64);
+            if daemon_sessions < 2 {
+                rep.inconclusive(&format!("case {idx}"), &format!("the daemon connected {daemon_sessions} time(s) only"));
+            }
+        }
         rep.count_n("log_bytes_searched", text.len() as u64);
         rep.count_n("log_lines_searched", text.iter().filter(|b| **b == b'\n').count() as u64);
         let der = secrets::pem_der(&std::fs::read(dir.join(key)).unwrap_or_default());
@@ -787,6 +825,9 @@ struct DaemonOpts {
     /// outlives it; the IRRd accepts those tasks' connections and stays silent until `release`
     /// (virtual seconds), then answers everything it was asked. Later connections are served normally.
     leftover_evaluation_on_silent_irr: Option<(usize, f64)>,
+    /// Some(n): the first n runs fail because the router sends half a reply and then ends the TLS
+    /// session in an orderly way (instead of dropping the connection right after the hello)
+    truncated_reply_then_close: Option<usize>,
 }
 
 fn run_daemon(k: f64, period: u64, outcomes: &[bool], signals: &[(f64, i32)], end_at: f64, slow: &[(usize, f64)], opts: &DaemonOpts) -> Result<DaemonObs, String> {
@@ -809,6 +850,13 @@ fn run_daemon(k: f64, period: u64, outcomes: &[bool], signals: &[(f64, i32)], en
         script.faults = vec![("get-config".into(), 0, e2e::FaultKind::HoldOk), ("get-config".into(), 1, e2e::FaultKind::RpcError)];
         script.faults_only_session = Some(nleft);
         script.late_ms = 40;
+    } else if let Some(nt) = opts.truncated_reply_then_close {
+        for f in fail.iter_mut().take(nt) {
+            *f = false;
+        }
+        script.faults = vec![("get-config".into(), 0, e2e::FaultKind::Truncated)];
+        script.faults_only_session = Some(nt);
+        script.running = e2e::running_config(&[]);
     } else {
         script.running = e2e::running_config(&[]);
     }
@@ -984,12 +1032,16 @@ pub fn run_c19(cfg: &Cfg) -> i32 {
         // talk to an IRRd that does not answer: the waiting daemon must stay responsive
         Sc { period: 300, outcomes: vec![false, true], signals: vec![(20.0, libc::SIGHUP), (100.0, libc::SIGTERM)], end: 220.0,
             name: "p300:one-worker-thread:F(evaluation left behind on a silent IRRd until 40s)+SIGHUP@20+S+SIGTERM@100", slow: vec![],
-            opts: DaemonOpts { workers: Some(1), leftover_evaluation_on_silent_irr: Some((1, 40.0)) } },
+            opts: DaemonOpts { workers: Some(1), leftover_evaluation_on_silent_irr: Some((1, 40.0)), ..DaemonOpts::default() } },
+        // runs that fail in the middle of a reply (half a message, then an orderly TLS close)
+        Sc { period: 300, outcomes: vec![false, false, true], signals: vec![(60.0 + 30.0, libc::SIGHUP)], end: 60.0 + 30.0 + 120.0 + 80.0,
+            name: "p300:FF(half a reply, then close_notify)+SIGHUP@90(in backoff)S", slow: vec![],
+            opts: DaemonOpts { truncated_reply_then_close: Some(2), ..DaemonOpts::default() } },
         // several failed runs in a row, each leaving its evaluation blocked on the unresponsive
         // IRRd: the retries must go on (blocked helpers must not exhaust anything the next run needs)
         Sc { period: 300, outcomes: vec![false, false, false, false, false, false, true], signals: vec![], end: 60.0 + 120.0 + 240.0 + 300.0 + 300.0 + 300.0 + 120.0,
             name: "p300:FFFFFF(each leaving its evaluation behind on a silent IRRd until 1250s)S", slow: vec![],
-            opts: DaemonOpts { workers: None, leftover_evaluation_on_silent_irr: Some((6, 1250.0)) } },
+            opts: DaemonOpts { workers: None, leftover_evaluation_on_silent_irr: Some((6, 1250.0)), ..DaemonOpts::default() } },
         Sc { period: 600, outcomes: vec![false, false, true], signals: vec![(60.0 + 50.0, libc::SIGHUP), (60.0 + 50.0 + 200.0, libc::SIGTERM)], end: 600.0, name: "p600:FF+SIGHUP@110(in 2nd backoff)S+SIGTERM@310(in period)", slow: vec![], opts: DaemonOpts::default() },
     ];
     if cfg.thorough() {
